@@ -16,7 +16,8 @@ EXPLANATION = ("(T1) for each bundled tariff JSON, after the specified wrap spli
                "ends), zero or several matches raise, breakpoints are scanned in descending order returning the first with "
                "target_hour >= t, target_hour is in hours (units), the vector lookup evaluates start + k*timedelta(minutes=period) "
                "for k in range(length); (S2) Interface.get_prices/get_demand_charge start at sim.start + timedelta(minutes=period)*t "
-               "and pass (start, length, period) on; energy cost and demand charge have the right units and reductions.")
+               "and pass (start, length, period) on; energy cost and demand charge have the right units and reductions."
+               ' Added in round 3: the lookup methods keep no state on the tariff object.')
 NOT_DECIDED = "time-zone / DST behaviour of datetime arithmetic (library semantics)"
 
 MASKS = {"WEEKDAYS": [True] * 5 + [False] * 2, "WEEKENDS": [False] * 5 + [True] * 2, "ALL": [True] * 7}
